@@ -534,6 +534,24 @@ DOMImplementation   *DOMDocumentImpl::getImplementation() const {
 
 DOMNode *DOMDocumentImpl::insertBefore(DOMNode *newChild, DOMNode *refChild)
 {
+    // The children of a DocumentFragment are inserted one at a time, each through this
+    // function: refuse the fragment as a whole, before anything is moved, when it would
+    // give the document a second element or a second document type.
+    if (newChild != 0 && newChild->getNodeType() == DOMNode::DOCUMENT_FRAGMENT_NODE)
+    {
+        XMLSize_t elements = (fDocElement != 0) ? 1 : 0;
+        XMLSize_t docTypes = (fDocType != 0) ? 1 : 0;
+        for (DOMNode* kid = newChild->getFirstChild(); kid != 0; kid = kid->getNextSibling())
+        {
+            if (kid->getNodeType() == DOMNode::ELEMENT_NODE)
+                ++elements;
+            else if (kid->getNodeType() == DOMNode::DOCUMENT_TYPE_NODE)
+                ++docTypes;
+        }
+        if (elements > 1 || docTypes > 1)
+            throw DOMException(DOMException::HIERARCHY_REQUEST_ERR,0, getMemoryManager());
+    }
+
     // Only one such child permitted
     if(
         (newChild->getNodeType() == DOMNode::ELEMENT_NODE  && fDocElement!=0)
